@@ -237,6 +237,40 @@ theorem cex_comment_around_semicolon : ¬ frag_fixed_point_full := by
   have := h semiFile semiFile2 _ _ (by decide) (by decide) rfl (by decide) (by decide) rfl
   revert this; decide
 
+/-- full statement (false): the fixed-point statement for ALL comment-free files of the fragment (every lexical
+    item of the tree is a code token), i.e. `frag_fixed_point_comment_free` without the restriction of
+    `Cst.cf` to the constructs other than `assert` -/
+def frag_fixed_point_nocomment_full : Prop :=
+  ∀ (f f2 : File) (s s2 : Src), f.wf = true → f.noLeadingWs = true → f.items.lex.length = f.codeTokens.length →
+    f.parse = .ok s → f2.wf = true → f2.flatten = s.rebuild → f2.parse = .ok s2 → s2.rebuild = s.rebuild
+
+/-- `{ a = assert x; y; }` -/
+def assertSetFile : File :=
+  { items := .elem [] (.set false [] (.bind " ".toList "a".toList [] " ".toList [] " ".toList
+      (.kw false [] " ".toList (.leaf .ident "x".toList) [] [] [] " ".toList (.leaf .ident "y".toList)) [] [] .nil) " ".toList) .nil,
+    endGap := "\n".toList }
+
+/-- the tree of its output `{ a = assert x;⏎  y; }` -/
+def assertSetFile2 : File :=
+  { items := .elem [] (.set false [] (.bind " ".toList "a".toList [] " ".toList [] " ".toList
+      (.kw false [] " ".toList (.leaf .ident "x".toList) [] [] [] "\n  ".toList (.leaf .ident "y".toList)) [] [] .nil) " ".toList) .nil,
+    endGap := "\n".toList }
+
+/-- NEW FINDING `C06-fragment-assert-in-one-line-container`: `Assertion.rebuild` (expressions/assertion.py)
+    always writes the body on a line of its own. Inside a container written on one line the first pass
+    therefore puts a line break into the container (`{ a = assert x; y; }` -> `{ a = assert x;⏎  y; }`), and
+    the second pass, which reads the container as spanning several lines, lays it out again
+    (-> `{⏎  a = assert x;⏎  y;⏎}`): not a fixed point, without any comment. Hence `assert` stays outside
+    `Cst.cf`; a normaliser for it would need the exclusion "no `assert` inside a one-line container". -/
+theorem cex_assert_in_one_line_container : ¬ frag_fixed_point_nocomment_full := by
+  intro h
+  have := h assertSetFile assertSetFile2 _ _ (by decide) (by decide) (by decide) rfl (by decide) (by decide) rfl
+  revert this; decide
+
+example : assertSetFile.flatten = "{ a = assert x; y; }\n".toList := by decide
+example : assertSetFile.roundtrip = .ok "{ a = assert x;\n  y; }\n".toList := by decide
+example : assertSetFile2.roundtrip = .ok "{\n  a = assert x;\n  y;\n}\n".toList := by decide
+
 /-- The second pass is always defined and keeps tokens and (when no comment overtakes another)
     comments of the tree it reads — the instance of `C01.frag_parse_total` /
     `C01.frag_tokens_preserved` for `f2`. What is NOT proved is the equality of the whitespace. -/
@@ -249,13 +283,27 @@ theorem frag_second_pass_tokens (f2 : File) (hwf : f2.wf = true) :
   rw [h1, ← toksL_proj_false, hl, toksL_proj_false, items_toks_lexM]
 
 /-- FIXED POINT FOR COMMENT-FREE FILES. For every well-formed file of the fragment without comments
-    (nested sets / `rec` sets / lists / bindings / leaves with arbitrary whitespace, any depth; `File.cf`
-    is false for files with parentheses or function calls — the tree normaliser `File.norm` has not
-    been extended to them yet), the
+    (nested sets / `rec` sets / lists / bindings / parenthesised expressions / function calls /
+    `with e; body` / select `e.a.b` / `or default` / lambda `x: body` / unary and binary operators / leaves
+    with arbitrary whitespace, any depth; not `assert`, and no `-` in front of an expression whose first
+    token is a path literal, which the output fuses into one token — `Cst.fusesMinus`,
+    `C01.cex_unary_minus_path_fused`: `Cst.cf`), the
     text the round trip writes is the flattening of the well-formed comment-free tree `File.norm f`
     — the round trip IS that tree normaliser (`file_rt`: one line break per item of a container
     that spans lines, blank lines kept as one, two-space indentation, values on their own line
-    keep the indentation read from their gap, one-line containers joined by single spaces) — and
+    keep the indentation read from their gap, one-line containers joined by single spaces; a
+    parenthesised value stays on the line of `(` or goes on its own line at the indentation read from
+    the gap, `)` stays or goes on its own line at the current indentation; function and argument are
+    separated by one space or a line break with the argument at the indentation read from the gap; the
+    `.` of a select, the `or`, the `:` of a lambda and the operand of a unary operator stay on the line or
+    go on their own line at the indentation read from the gap; the body of a lambda and the two sides of a
+    binary operator keep the NUMBER of line breaks of the source — cf. `C18.cex_blank_lines_after_colon`
+    / `cex_blank_lines_around_operator` — at the current indentation, the right operand at the
+    indentation `_resolve_right_operand` gives it: `binRightIndentC`; the environment of a `with` follows
+    after one space or on its own line at the indentation read from the gap, `;` attached, the body on its
+    own line at the current indentation when the source has a line break around the `;`, else after one
+    space when it is a set / list, else on its own line when it spans several lines, else after one space)
+    — and
     the round trip of that tree writes the same text again (`File.norm` is idempotent). `File.norm f`
     is the tree tree-sitter returns for the output: compared with the real tree, node by node, on
     every comment-free sample of every run (`fragment_correspondence`), which is the parser-contract
@@ -285,6 +333,32 @@ example : wsSample.wf = true ∧ wsSample.cf = true ∧ wsSample.noLeadingWs = t
 example : wsSample.norm.flatten =
     "rec {\n\n  a =\n\n      [\n        1\n\n        [\n\n        ]\n      ];\n  b = { c = x; };\n\n}\n\n".toList := by
   decide
+
+/-- `f  (⏎⏎     g x⏎  )⏎⏎   [ (1) ]` -/
+def callSample : File :=
+  { items := .elem [] (.app (.app (.leaf .ident "f".toList) [] "  ".toList
+      (.paren (.elem "\n\n     ".toList (.app (.leaf .ident "g".toList) [] " ".toList (.leaf .ident "x".toList)) .nil) "\n  ".toList))
+      [] "\n\n   ".toList (.list (.elem " ".toList (.paren (.elem [] (.leaf .int "1".toList) .nil) []) .nil) " ".toList)) .nil,
+    endGap := [] }
+
+example : callSample.flatten = "f  (\n\n     g x\n  )\n\n   [ (1) ]".toList := by decide
+example : callSample.wf = true ∧ callSample.cf = true ∧ callSample.noLeadingWs = true := by decide
+example : callSample.norm.flatten = "f (\n\n     g x\n)\n\n   [ (1) ]".toList := by decide
+
+/-- `{⏎  a = x:⏎⏎⏎     ! x. b.c⏎        or  d⏎⏎      +⏎⇥-y .e;⏎}⏎` -/
+def opsCfSample : File :=
+  { items := .elem [] (.set false [] (.bind "\n  ".toList "a".toList [] " ".toList [] " ".toList
+      (.lam "x".toList [] [] [] "\n\n\n     ".toList
+        (.bin (.un "!".toList [] " ".toList (.selOr (.leaf .ident "x".toList) [] [] " ".toList ["b".toList, "c".toList] []
+            "\n        ".toList "  ".toList (.leaf .ident "d".toList)))
+          [] "\n\n      ".toList "+".toList [] "\n\t".toList
+          (.un "-".toList [] [] (.sel (.leaf .ident "y".toList) [] " ".toList [] ["e".toList]))))
+      [] [] .nil) "\n".toList) .nil,
+    endGap := "\n".toList }
+
+example : opsCfSample.flatten = "{\n  a = x:\n\n\n     ! x. b.c\n        or  d\n\n      +\n\t-y .e;\n}\n".toList := by decide
+example : opsCfSample.wf = true ∧ opsCfSample.cf = true ∧ opsCfSample.noLeadingWs = true := by decide
+example : opsCfSample.norm.flatten = "{\n  a = x:\n\n\n  !x.b.c\n        or d\n\n  +\n    -y.e;\n}\n".toList := by decide
 
 /-- fixed points of the model (line-level comments, canonical layout): decidable per file -/
 def isFixedPoint (f : File) : Bool := decide (f.roundtrip = .ok f.flatten)
